@@ -6,6 +6,7 @@ import (
 	"os"
 	"path/filepath"
 	"regexp"
+	"sort"
 	"strings"
 	"sync"
 	"sync/atomic"
@@ -48,8 +49,8 @@ func c29(c *vc.Ctx) {
 	depth := vc.Pick(c, 1, 2)
 	space := synSpace{Depth: depth, CoreOnly: true, LayoutDepth: -1, Corpus: true, Variants: []string{"bash"}}
 	own := c29OwnPrograms(!c.Quick())
-	runTimeout := vc.Pick(c, 1500*time.Millisecond, 3*time.Second)
-	c.Rule = fmt.Sprintf("programs (bash variant, parsed once, comments kept) = every string literal of interp/interp_test.go and of the syntax test tables that parses + every expansion of the union grammar (mc/synt/gram.go) to nesting depth %d (core contexts below the top level) + %d own programs (c29_progs.go: %d tree-rewriting-prone and Env-writing statements alone, in %d wrappers (function called twice, loop, subshell, command substitution, eval, EXIT trap, pipeline, ...), and ordered pairs (quick: second statement from the Env list or every other tree statement; thorough: every ordered pair, also inside a function called twice and inside a loop)); not run: programs outside the own list containing a process substitution (unread FIFOs), programs with `exit`/`return` and a C-style for loop (uncancellable spin). Each program: 7 runs of the same tree (fresh Runner with a recording WriteEnviron; second fresh Runner; same Runner after Reset; ListEnviron twice with Reset; FuncEnviron) + 1 control run of a re-parsed tree; oracle: canonical dump with positions and printed form identical after every run, recorder.Set never called, recorder/ListEnviron contents identical (arrays compared over their full capacity), and for deterministic programs (control run equal, no background job outside the own list) stdout/stderr/status of the repeated runs equal those of the first. External commands are an in-process stub (cat, env, sleep; everything else 127), a call handler aborts after %d simple commands, context deadline %v; distinct = distinct (program, first-run outcome)",
+	runTimeout := vc.Pick(c, 1500*time.Millisecond, 2*time.Second)
+	c.Rule = fmt.Sprintf("programs (bash variant, parsed once, comments kept) = every string literal of interp/interp_test.go and of the syntax test tables that parses + every expansion of the union grammar (mc/synt/gram.go) to nesting depth %d (core contexts below the top level) + %d own programs (c29_progs.go: %d tree-rewriting-prone and Env-writing statements alone, in %d wrappers (function called twice, loop, subshell, command substitution, eval, EXIT trap, pipeline, ...), and ordered pairs (quick: second statement from the Env list or every other tree statement; thorough: every ordered pair, also inside a function called twice and inside a loop)); not run: programs outside the own list containing a process substitution (unread FIFOs), programs with `exit`/`return` and a C-style for loop (uncancellable spin). Each program: 7 runs of the same tree (fresh Runner with a recording WriteEnviron; second fresh Runner; same Runner after Reset; ListEnviron twice with Reset; FuncEnviron) + 1 control run of a re-parsed tree; oracle: canonical dump with positions and printed form identical after every run, recorder.Set never called, recorder/ListEnviron contents identical (arrays compared over their full capacity), and for deterministic programs (control run equal, no background job outside the own list; for programs outside the own list containing a pipeline the lines of each stream are compared as a sorted list, the stages write concurrently) stdout/stderr/status of the repeated runs equal those of the first. External commands are an in-process stub (cat, env, sleep; everything else 127), a call handler aborts after %d simple commands, context deadline %v; distinct = distinct (program, first-run outcome)",
 		depth, len(own), len(c29Stmts()), len(c29Wrappers), c29CallBudget, runTimeout)
 	c.Assumptions = []string{
 		"tree equality is judged on exported fields (mc/synt Dump with positions and comments) and on syntax.Printer output; a mutation that is undone before Run returns is not seen",
@@ -68,12 +69,46 @@ func c29(c *vc.Ctx) {
 	var seq atomic.Int64
 	var pool sync.Pool
 
-	gen := func(emit func(c29Case)) {
-		for _, p := range own {
+	singles := c29Stmts()
+	isSingle := map[string]bool{}
+	for _, p := range singles {
+		isSingle[p] = true
+	}
+	run := func(t c29Case) *vc.Fail {
+		dir, _ := pool.Get().(string)
+		if dir == "" {
+			dir = filepath.Join(base, fmt.Sprint(seq.Add(1)))
+			if err := os.Mkdir(dir, 0o755); err != nil {
+				panic(err)
+			}
+		}
+		fail, reusable := c29One(c, t, dir, runTimeout)
+		if reusable {
+			pool.Put(dir)
+		}
+		return fail
+	}
+	// phase 1: every statement alone. A tree that is rewritten by Run can make
+	// a later evaluation of the same node panic inside a goroutine of the
+	// Runner (pipeline stage, background job), which no harness can recover
+	// from; so the wrapped and paired programs only run when the single
+	// statements left their trees alone.
+	complete := vc.Run(c, func(emit func(c29Case)) {
+		for _, p := range singles {
 			emit(c29Case{p, "own"})
 		}
+	}, run)
+	if n := c29TreeFailures.Load(); n > 0 {
+		c.CapNote("%d single statements had their tree modified; wrapped/paired/corpus/grammar programs not run", n)
+		os.RemoveAll(base)
+		c.Finish(false)
+	}
+	gen := func(emit func(c29Case)) {
 		seen := map[string]bool{}
 		for _, p := range own {
+			if !isSingle[p] {
+				emit(c29Case{p, "own"})
+			}
 			seen[p] = true
 		}
 		for _, src := range synt.InterpCorpus() {
@@ -94,25 +129,15 @@ func c29(c *vc.Ctx) {
 			emit(c29Case{sc.Src, kind})
 		})
 	}
-	complete := vc.Run(c, gen, func(t c29Case) *vc.Fail {
-		dir, _ := pool.Get().(string)
-		if dir == "" {
-			dir = filepath.Join(base, fmt.Sprint(seq.Add(1)))
-			if err := os.Mkdir(dir, 0o755); err != nil {
-				panic(err)
-			}
-		}
-		fail, reusable := c29One(c, t, dir, runTimeout)
-		if reusable {
-			pool.Put(dir)
-		}
-		return fail
-	})
+	complete = vc.Run(c, gen, run) && complete
 	os.RemoveAll(base)
 	c.Finish(complete)
 }
 
 const c29CallBudget = 2000
+
+// c29TreeFailures counts the tree-modification failures seen so far.
+var c29TreeFailures atomic.Int64
 
 var c29TimeRe = regexp.MustCompile(`(?m)^(real|user|sys)([\t ])\S+$`)
 
@@ -133,17 +158,26 @@ type c29Run struct {
 	dir  string
 	// calls counts the simple commands of the current run
 	calls atomic.Int64
+	// unordered: the stages of a pipeline write concurrently, so the order of
+	// the lines of a stream is not determined; the outcome holds them sorted
+	unordered bool
+}
+
+func c29SortLines(s string) string {
+	lines := strings.SplitAfter(s, "\n")
+	sort.Strings(lines)
+	return strings.Join(lines, "")
 }
 
 func c29Pairs(dir string) []string {
 	return []string{"HOME=" + dir, "TMPDIR=" + dir, "PATH=/usr/bin:/bin", "one=1", "two=2", "foo=envfoo", "empty="}
 }
 
-func c29NewRun(dir string, env expand.Environ) (*c29Run, error) {
+func c29NewRun(dir string, env expand.Environ, unordered ...bool) (*c29Run, error) {
 	if err := c29Empty(dir); err != nil {
 		return nil, err
 	}
-	run := &c29Run{out: &c29Buf{}, errb: &c29Buf{}, dir: dir}
+	run := &c29Run{out: &c29Buf{}, errb: &c29Buf{}, dir: dir, unordered: len(unordered) > 0 && unordered[0]}
 	r, err := interp.New(
 		interp.Env(env),
 		interp.Dir(dir),
@@ -215,7 +249,11 @@ func (run *c29Run) exec(f *syntax.File, reset bool, timeout time.Duration) c29Ou
 		s = strings.ReplaceAll(s, run.dir, "<DIR>")
 		return c29TimeRe.ReplaceAllString(s, "$1$2<T>")
 	}
-	o.Text = fmt.Sprintf("status=%d fatal=%q stdout=%q stderr=%q", status, norm(fatal), norm(run.out.String()), norm(run.errb.String()))
+	stdout, stderr := norm(run.out.String()), norm(run.errb.String())
+	if run.unordered {
+		stdout, stderr = c29SortLines(stdout), c29SortLines(stderr)
+	}
+	o.Text = fmt.Sprintf("status=%d fatal=%q stdout=%q stderr=%q", status, norm(fatal), stdout, stderr)
 	return o
 }
 
@@ -251,6 +289,24 @@ func c29Spins(f *syntax.File, src string) bool {
 		return !found
 	})
 	return found || strings.Contains(src, "for ((") || strings.Contains(src, "for((")
+}
+
+// c29EndlessFor: a C-style for loop without condition in a program without
+// `break`.
+func c29EndlessFor(f *syntax.File, src string) bool {
+	if strings.Contains(src, "break") {
+		return false
+	}
+	found := false
+	syntax.Walk(f, func(n syntax.Node) bool {
+		if fc, ok := n.(*syntax.ForClause); ok {
+			if cl, ok := fc.Loop.(*syntax.CStyleLoop); ok && cl.Cond == nil {
+				found = true
+			}
+		}
+		return !found
+	})
+	return found
 }
 
 // c29HasBackground: the program may start jobs it does not wait for (own
@@ -292,7 +348,14 @@ func c29Judge(c *vc.Ctx, t c29Case, dir string, timeout time.Duration, abandoned
 		c.Count("skipped_uncancellable_loop", 1)
 		return nil
 	}
+	if c29EndlessFor(f, t.Src) {
+		// `for ((;;))` without break: only the context ends it (or the call
+		// budget); a short deadline is enough to check the tree afterwards
+		timeout = 200 * time.Millisecond
+		c.Count("endless_for_short_deadline", 1)
+	}
 	background := c29HasBackground(f, t)
+	unordered := t.Kind != "own" && strings.Contains(t.Src, "|")
 	c.Count("programs_run_"+t.Kind, 1)
 	dopts := synt.DumpOpts{Positions: true, Comments: true}
 	printer := syntax.NewPrinter()
@@ -308,6 +371,7 @@ func c29Judge(c *vc.Ctx, t c29Case, dir string, timeout time.Duration, abandoned
 	var fail *vc.Fail
 	treeCheck := func(runName string) bool {
 		if d := synt.Dump(f, dopts); d != dump0 {
+			c29TreeFailures.Add(1)
 			fail = &vc.Fail{Key: key + " | tree-dump " + runName, Msg: fmt.Sprintf("Run (%s) modified the syntax tree of %s: %s", runName, shortSrc(t.Src), c29FirstDiff(dump0, d)),
 				Detail: map[string]string{"before": dump0, "after": d}, Class: c29Class(t, "tree")}
 			return false
@@ -336,7 +400,7 @@ func c29Judge(c *vc.Ctx, t c29Case, dir string, timeout time.Duration, abandoned
 
 	// ---- run A: recording environment
 	recA := c29NewRecorder(dir)
-	runA, err := c29NewRun(dir, recA)
+	runA, err := c29NewRun(dir, recA, unordered)
 	if err != nil {
 		c.Count("skipped_harness_error", 1)
 		return nil
@@ -377,7 +441,7 @@ func c29Judge(c *vc.Ctx, t c29Case, dir string, timeout time.Duration, abandoned
 	if err != nil {
 		return vc.Failf(key+" | reparse", "second parse of %s fails: %v", shortSrc(t.Src), err)
 	}
-	runD, err := c29NewRun(dir, c29NewRecorder(dir))
+	runD, err := c29NewRun(dir, c29NewRecorder(dir), unordered)
 	if err != nil {
 		c.Count("skipped_harness_error", 1)
 		return pending
@@ -398,12 +462,14 @@ func c29Judge(c *vc.Ctx, t c29Case, dir string, timeout time.Duration, abandoned
 
 	// ---- run B: second fresh Runner, same tree; then Reset and again
 	recB := c29NewRecorder(dir)
-	runB, err := c29NewRun(dir, recB)
+	runB, err := c29NewRun(dir, recB, unordered)
 	if err != nil {
 		c.Count("skipped_harness_error", 1)
 		return pending
 	}
+	detB := det
 	for i, name := range []string{"second run, fresh Runner", "third run, same Runner after Reset"} {
+		dirty := false
 		oB := runB.exec(f, i == 1, timeout)
 		if bad(oB, name) {
 			return pending
@@ -419,16 +485,22 @@ func c29Judge(c *vc.Ctx, t c29Case, dir string, timeout time.Duration, abandoned
 			if pending == nil {
 				pending = fl
 			}
+			dirty = true
 		}
-		if det && !oB.TimedOut && oB.Text != oA.Text {
+		if detB && !oB.TimedOut && oB.Text != oA.Text {
 			return &vc.Fail{Key: key + " | behaviour " + name, Msg: fmt.Sprintf("%s of the same tree of %s behaves differently from the first run: first %s, now %s", name, shortSrc(t.Src), oA.Text, oB.Text), Class: c29Class(t, "behaviour")}
+		}
+		if dirty {
+			// the next run on this Runner starts from a changed Env: its
+			// behaviour says nothing more
+			detB = false
 		}
 	}
 
 	// ---- run E: plain read-only ListEnviron, twice with Reset
 	lenv := expand.ListEnviron(c29Pairs(dir)...)
 	snap0 := c29EachSnapshot(lenv)
-	runE, err := c29NewRun(dir, lenv)
+	runE, err := c29NewRun(dir, lenv, unordered)
 	if err != nil {
 		c.Count("skipped_harness_error", 1)
 		return pending
@@ -462,7 +534,7 @@ func c29Judge(c *vc.Ctx, t c29Case, dir string, timeout time.Duration, abandoned
 		}
 		return ""
 	})
-	runF, err := c29NewRun(dir, fenv)
+	runF, err := c29NewRun(dir, fenv, unordered)
 	if err != nil {
 		c.Count("skipped_harness_error", 1)
 		return pending
